@@ -2,6 +2,7 @@
 #include "../../../../common/debug.h"
 #include "../../../../common/type_helpers.h"
 #include "../../ffi_manager.h" // v0.13.0: FFI support
+#include "../assignments/const_check_helpers.h"
 #include "../statement_executor.h"
 #include "core/error_handler.h"
 #include "core/interpreter.h"
@@ -728,6 +729,11 @@ void execute_variable_declaration(StatementExecutor *executor,
                         "'. Use 'const' qualifier appropriately");
                 }
             }
+
+            // const T* の値で T* を初期化するのは禁止: int* q = p;
+            AssignmentHelpers::check_pointer_const_conversion(
+                interpreter, init_node, node->is_pointee_const_qualifier,
+                "variable '" + node->name + "'");
 
             TypedValue typed_value = interpreter.evaluate_typed(init_node);
             if (debug_mode) {
